@@ -31,6 +31,13 @@ def shapes(tier):
     return res
 
 
+def run_mir(tier, seed):
+    import sys, pathlib
+    sys.path.insert(0, str(pathlib.Path(__file__).resolve().parent.parent.parent / "mirsmt"))
+    import mir_check, dn
+    return mir_check.run_obligations([dn.ob_issuer_view])
+
+
 def spec(tier, seed):
     qs = [crl_query("c08", s, O_C08) for s in shapes(tier)]
     rels = ["same day", "nextUpdate one day later", "nextUpdate one day earlier", "across 2049-12-31 / 2050-01-01"]
@@ -41,7 +48,7 @@ def spec(tier, seed):
             qs.append(Query(name=f"c08_guards_{rel}_{n_ku}", body=f"    crl::guards({rel}, {n_ku});", unwind=40, family="crl_guards", stubs=S1,
                             functions=CRL_FUNCS, timeout=1200,
                             shape=f"dates: {what}; hour, minute, second, nanosecond of both updates symbolic; issuer declares {n_ku} symbolic key usage(s)"))
-    return {"queries": qs, "exhaustive": False,
+    return {"queries": qs, "mir": run_mir, "exhaustive": False,
             "bounds": "CRL shapes: <= 2 revoked entries, every reason code and none, invalidity date present/absent, IDP none/no scope/user/CA with 1..2 "
                       "URIs, key-id methods, serial / CRL-number length <= 4 with first byte from {01,7f,80,ff} (tail symbolic), times concrete and pairwise "
                       "distinct; guards: four date relations x symbolic time of day incl. nanoseconds x symbolic issuer usages",
